@@ -408,6 +408,83 @@ func scenStreamOutrunsCall(tr *vtrace.Tracer, kind string) error {
 	return nil
 }
 
+// C08: the context of a streaming correctable call ends while the server keeps
+// sending updates faster than the (slow) quorum function consumes them, so that
+// a reply is buffered whenever the call looks: the call must still notice its
+// context.
+func scenCtxWhileStreamFloods(tr *vtrace.Tracer, kind string) error {
+	l, err := newLife(tr, EnvOpts{Nodes: 1})
+	if err != nil {
+		return err
+	}
+	defer l.finish()
+	for _, s := range l.e.Servers {
+		s.Auto = func(method string, req *puppet.Req) []puppetsrv.Cmd {
+			if method == "CorrStream" {
+				return nil // fed by the scenario
+			}
+			return []puppetsrv.Cmd{{Kind: "reply", Val: 1}}
+		}
+	}
+	c := &lifeCall{tok: l.e.NextTok(), done: make(chan struct{}), obj: &callObj{}}
+	c.ctx = NewManualCtx(c.tok)
+	req := &puppet.Req{Call: c.tok}
+	from := tr.Len()
+	// the quorum function never reports done and takes 10 ms per invocation
+	l.e.QS.Set(c.tok, &QFParams{QF: "thr", K: 1000, Lv: "count", Orig: req, Delay: func() { time.Sleep(10 * time.Millisecond) }})
+	l.all = append(l.all, c)
+	tr.Emit("StubCall", 0, c.tok, "method", "CorrStream", "probe", false, "kind", "corrstream")
+	go func() {
+		defer close(c.done)
+		l.r.Invoke(c.tok, "CorrStream", "corrstream", l.e.Cfgs[1], l.e.Node(1), nil, false, c.ctx, req, c.obj)
+		tag := ""
+		if c.obj.corr != nil {
+			<-c.obj.corr.Done()
+			_, _, err := c.obj.corr.Get()
+			tag = classify(err).tag
+		}
+		tr.Emit("CallServed", 0, c.tok, "tag", tag)
+	}()
+	if !l.awaitEv(from, SyncTimeout, "HStart", 1) {
+		return fmt.Errorf("handler did not start")
+	}
+	stop := make(chan struct{})
+	fed := make(chan struct{})
+	go func() {
+		defer close(fed)
+		ch := l.e.Server(1).Script(c.tok)
+		for i := 0; i < 300; i++ {
+			select {
+			case ch <- puppetsrv.Cmd{Kind: "item", Val: 1}:
+			case <-stop:
+				ch <- puppetsrv.Cmd{Kind: "end"}
+				return
+			}
+		}
+		ch <- puppetsrv.Cmd{Kind: "end"}
+	}()
+	// the call has consumed a few updates and more are waiting
+	n := 0
+	tr.Await(from, SyncTimeout, func(e vtrace.Event) bool {
+		if e.Ev == "CallRecv" && e.Tok == c.tok {
+			n++
+		}
+		return n >= 4
+	})
+	l.endCtx(c)
+	l.wait(c, QuietT)
+	l.quiescent()
+	close(stop)
+	select {
+	case <-fed:
+	case <-time.After(SyncTimeout):
+	}
+	p := l.call("Rpc", 1, true, false)
+	l.wait(p, QuietT)
+	l.quiescent()
+	return nil
+}
+
 // C09: the context of a streaming call ends while the call is still handing
 // its requests to the senders (node 2's sender is busy) and the replies of
 // node 1 have already filled the call's reply channel, which nobody reads
@@ -1175,6 +1252,7 @@ var LifeScenarios = map[string][]LifeScenario{
 		{Name: "ctx-while-buffered", Run: scenCtxWhileBuffered},
 		{Name: "ctx-while-written", Run: scenCtxWhileWritten},
 		{Name: "ctx-while-awaiting", Run: scenCtxWhileAwaiting},
+		{Name: "ctx-while-stream-floods", Kind: "CorrStream", Run: scenCtxWhileStreamFloods},
 	},
 	"C09": {
 		{Name: "stale-broken-read", Run: scenStaleBrokenRead},
